@@ -9,4 +9,4 @@ Extraction "extracted/C07_model.ml" xb_types max_token cfg0 build cycle_take
   json_stream_decode json_array_decode entity_entry
   sched_obs
   config_headers line_run_cfg raw_run_cfg raw_enrich json_stream_decode_cfg json_array_decode_cfg
-  build_m spec_request spec_raw entity_mentry_add.
+  build_m spec_request spec_raw entity_mentry_add acquire_m mws_init_ok.
